@@ -250,21 +250,19 @@ def formatFloatYqYamlNested (disp sci : Str) : Option Str :=
 
 /-! ### `format_number_jq_compat` and helpers (src/jq/value.rs) -/
 
+/-- `match int_part.trim_start_matches('0') { "" => "0", trimmed => trimmed }`. -/
+def canonInt (ip : Str) : Str :=
+  match trimStartZeros ip with
+  | [] => ['0']
+  | t => t
+
 /-- `strip_insignificant_leading_zero_and_plus`. -/
 def stripInsignificant (s : Str) : Str :=
   let (negative, rest) := stripSign s
   let sign : Str := if negative then ['-'] else []
   match splitOnce '.' rest with
-  | some (i, f) =>
-    let canonicalInt := match trimStartZeros i with
-      | [] => ['0']
-      | t => t
-    sign ++ canonicalInt ++ '.' :: f
-  | none =>
-    let canonicalInt := match trimStartZeros rest with
-      | [] => ['0']
-      | t => t
-    sign ++ canonicalInt
+  | some (i, f) => sign ++ canonInt i ++ '.' :: f
+  | none => sign ++ canonInt rest
 
 inductive ExpParse
   | exact (v : Int)
